@@ -581,16 +581,34 @@ func c05exec(c *vt.Ctx, hist []string, f c05faults, pipeLike bool, ctrl *sched.C
 		step := func(ev string) bool {
 			w.tokens++
 			tok := fmt.Sprintf("T%d", w.tokens)
+			replyFirst := false
 			if a, b, ok := strings.Cut(ev, "||"); ok {
 				w.do(a, tok)
 				if ctrl.HasDelays() {
 					ctrl.Quiesce() // the library runs up to its parked sites before the second event
+					// If a is a reply for r1 and the client has already matched it (r1 is no longer
+					// pending, though its caller may still be parked on its way out), the reply came
+					// first: cancelling r1's context now cannot change what the call reports.
+					if id, known := w.ids["r1"]; known && (a == "reply1" || a == "err1" || a == "mal1") && b == "cancel1" {
+						replyFirst = true
+						for _, p := range rig.Cli.VerifSnapshot().Pending {
+							if p == id {
+								replyFirst = false
+							}
+						}
+					}
 				}
 				w.do(b, tok)
+				if replyFirst {
+					states = c05apply(c05apply(states, a, f, tok), b, f, tok)
+					c.Count("races_decided_by_delivery_before_cancel", 1)
+				}
 			} else {
 				w.do(ev, tok)
 			}
-			states = c05apply(states, ev, f, tok)
+			if !replyFirst {
+				states = c05apply(states, ev, f, tok)
+			}
 			rig.Settle()
 			if rig.Peer.PeerClosed() {
 				// a well-behaved peer closes its end once it has seen the client's EOF
@@ -701,7 +719,7 @@ func c05alphabet() []string {
 	return []string{"call2", "call3", "callc", "batch", "reply5", "reply6", "cancelb", "mal1", "notify", "reply1", "reply2", "err1", "cancel1", "cancel2", "tmo", "close", "eof", "fail", "malformed", "cbstart", "cbrel"}
 }
 
-var c05races = []string{"reply5||reply6", "reply5||cancelb", "batch||close", "callc||close", "callc||reply1", "mal1||cancel1", "reply1||cancel1", "reply1||close", "cancel1||close", "eof||close", "reply1||eof", "call3||close", "reply2||tmo", "cbrel||close", "reply1||fail", "notify||close", "malformed||reply1"}
+var c05races = []string{"reply5||reply6", "reply5||cancelb", "batch||close", "callc||close", "callc||reply1", "mal1||cancel1", "reply1||cancel1", "err1||cancel1", "reply1||close", "cancel1||close", "eof||close", "reply1||eof", "call3||close", "reply2||tmo", "cbrel||close", "reply1||fail", "notify||close", "malformed||reply1"}
 
 func c05nontrivial(h []string) bool {
 	ends := 0
